@@ -37,7 +37,7 @@ func c16Property(rt *rapid.T, ev *evid.Rec) {
 	pool := gen.NewPool()
 	nd := rapid.IntRange(1, 3).Draw(rt, "ndecls")
 	var decls []*refmodel.Decl
-	shared, excluded := false, false
+	shared, excluded, userIndex := false, false, false
 	for i := 0; i < nd; i++ {
 		do := gen.DeclOpts{Pool: pool, Name: fmt.Sprintf("ig%d", i+1), Table: fmt.Sprintf("t%d", i+1), AllowNotify: true,
 			Event: gen.EventOpts{Types: gen.TypeOpts{MaxDepth: 3, MaxTuple: 3, MaxFixed: 3}, MaxInputs: 4, SelProb: 50}}
@@ -80,6 +80,19 @@ func c16Property(rt *rapid.T, ev *evid.Rec) {
 					d.Columns = append(d.Columns, refmodel.Column{Name: idc, Type: rapid.SampledFrom([]string{"numeric", "int", "int8"}).Draw(rt, "idtype")})
 				}
 			}
+		}
+		// user-supplied secondary indexes (any of its columns); they do not replace the generated unique key
+		if rapid.IntRange(0, 2).Draw(rt, "userindex") == 0 && len(d.Columns) > 0 {
+			for k := rapid.IntRange(1, 2).Draw(rt, "nindex"); k > 0; k-- {
+				var cols []string
+				for _, c := range rapid.Permutation(d.Columns).Draw(rt, "indexcols") {
+					if len(cols) < 2 {
+						cols = append(cols, c.Name)
+					}
+				}
+				d.Index = append(d.Index, cols)
+			}
+			userIndex = true
 		}
 		decls = append(decls, d)
 	}
@@ -213,7 +226,7 @@ func c16Property(rt *rapid.T, ev *evid.Rec) {
 		collided = true
 	}
 	nontrivial := shared || preexisting
-	ev.Case(nontrivial, desc()+fmt.Sprint(rowsPer), fmt.Sprintf("shared=%v", shared), fmt.Sprintf("preexisting=%v", preexisting), fmt.Sprintf("collisionChecked=%v", collided))
+	ev.Case(nontrivial, desc()+fmt.Sprint(rowsPer), fmt.Sprintf("shared=%v", shared), fmt.Sprintf("preexisting=%v", preexisting), fmt.Sprintf("userIndex=%v", userIndex), fmt.Sprintf("collisionChecked=%v", collided))
 	if excluded {
 		ev.Excluded(1)
 	}
